@@ -57,6 +57,11 @@ def default_jobs(engine, prop, tier, seed, runs):
     jobs = regression_jobs(prop)
     enum = engine.enumerated(prop, tier, seed) if hasattr(
         engine, 'enumerated') else []
+    if os.environ.get('PICOSIM_CONFIG') and len(enum) > 500:
+        # configuration slices sample the enumerated space instead of
+        # repeating it
+        step = len(enum) // 500
+        enum = enum[::step]
     for i, sc in enumerate(enum):
         jobs.append({'kind': 'scenario', 'scenario': sc, 'enum': True})
     for i in range(runs):
